@@ -328,6 +328,12 @@ func oddValue(t *rapid.T, depth int) any {
 	return nil
 }
 
+var c10Builtins = []string{"SUM", "AVG", "MIN", "MAX", "COUNT", "CONCAT", "FIRST", "LAST", "ELEMENTAT", "DEFAULTKEY", "CHANGETYPE", "UNWIND", "IF", "FUSE", "DATERANGE",
+	"CONSTANT", "GETVAR", "SETVAR", "RAISE_WHEN", "RAISE", "REPORT_WHEN", "REPORT", "HASH", "ENCODE", "DECODE", "TIMESTAMP", "ARRAY", "TO_LOWER", "TO_UPPER", "SUBSTR"}
+
+var c10BuiltinArgs = []string{"NULL", "1", "-1", "1.5", "0", "'x'", "''", "'unit'", "'base64'", "'sha1'", "'double'", "TRUE", "FALSE", "a", "s", "f", "n", "o", "id", "nosuch", "`n[0]`", "`n[0].v`", "`o.p`", "*",
+	"(SELECT v FROM n)", "(SELECT * FROM dual)", "ARRAY(1, 2)", "ARRAY()", "(1, 2)", "a / 0", "99999999999999999999", "`<-`", "ARRAY(ARRAY(1), n)", "FUSE(o)", "SETVAR('k', 1)", "COUNT(*)"}
+
 // c10FollowUps: a second query issued by the same caller in the same process
 // after the first returned. It must return too: a lock left held or a poisoned
 // cache entry by a failed first query shows up here.
@@ -342,7 +348,7 @@ func c10FollowUp(t *rapid.T) casefmt.Op {
 }
 
 func genC10(t *rapid.T) *Bundle {
-	kind := rapid.SampledFrom([]string{"fault", "fault", "fault", "pjoin", "mutated", "mutated", "bytes", "odd_doc", "options", "selector", "selector", "dialect"}).Draw(t, "kind")
+	kind := rapid.SampledFrom([]string{"fault", "fault", "fault", "pjoin", "mutated", "mutated", "bytes", "odd_doc", "options", "selector", "selector", "dialect", "builtin", "builtin"}).Draw(t, "kind")
 	sim := drawSim(t, "")
 	exp := c10Expect{Kind: kind}
 	doc := c10Doc(t)
@@ -412,6 +418,38 @@ func genC10(t *rapid.T) *Bundle {
 			op.Query = strings.ReplaceAll(op.Query, "x.id", "x.id"+suffix)
 			op.Query = strings.ReplaceAll(op.Query, "y.id", "y.id"+suffix)
 		}
+	case "builtin":
+		// every built-in, under every qualifier, with any number of arguments of any kind, in any clause
+		fn := rapid.SampledFrom(c10Builtins).Draw(t, "builtin")
+		qual := rapid.SampledFrom([]string{"", "", "", "ASYNC.", "SPIN.", "SPINASYNC.", "ONCE.", "SCOPED.", "GLOBAL.", "AWAIT:"}).Draw(t, "bqual")
+		var args []string
+		for i := 0; i < rapid.IntRange(0, 4).Draw(t, "bnargs"); i++ {
+			args = append(args, rapid.SampledFrom(c10BuiltinArgs).Draw(t, "barg"))
+		}
+		call := fmt.Sprintf("%s%s(%s)", qual, fn, strings.Join(args, ", "))
+		if qual == "AWAIT:" {
+			call = fmt.Sprintf("AWAIT(%s(%s))", fn, strings.Join(args, ", "))
+		}
+		src := rapid.SampledFrom([]string{"t", "t", "dual", "grid", "(SELECT * FROM t) d"}).Draw(t, "bsrc")
+		switch rapid.SampledFrom([]string{"select", "select", "where", "having", "subquery", "arg", "order_group"}).Draw(t, "bplace") {
+		case "select":
+			op.Query = fmt.Sprintf("SELECT id, %s AS x FROM %s", call, src)
+		case "where":
+			op.Query = fmt.Sprintf("SELECT id FROM %s WHERE %s", src, call)
+		case "having":
+			op.Query = fmt.Sprintf("SELECT s, COUNT(*) AS c FROM %s GROUP BY s HAVING %s", src, call)
+		case "subquery":
+			op.Query = fmt.Sprintf("SELECT id, (SELECT %s AS y FROM n) AS sub FROM %s WHERE EXISTS (SELECT %s FROM n)", call, src, call)
+		case "arg":
+			op.Query = fmt.Sprintf("SELECT id, CONCAT(%s, 1) AS x, IF(%s, 1, 2) AS y FROM %s", call, call, src)
+		case "order_group":
+			op.Query = fmt.Sprintf("SELECT s, %s AS x FROM %s GROUP BY s ORDER BY s", call, src)
+		}
+		op.Vars = rapid.SampledFrom([]int{-1, 0}).Draw(t, "bvars")
+		if rapid.Bool().Draw(t, "bconst") {
+			op.Constants = map[string]any{"unit": "ms", "x": nil, "1": 1.0}
+		}
+		op.NoHandlers = rapid.Bool().Draw(t, "no_handlers")
 	case "dialect":
 		// texts for the query-text rewriters (PostgresEscapingDialect, IdiomaticArrays): quotes, escapes, brackets
 		n := rapid.IntRange(1, 10).Draw(t, "ndtok")
@@ -496,6 +534,9 @@ func genC10(t *rapid.T) *Bundle {
 	c := oneClientCase("C10", sim, doc, op, c10FollowUp(t))
 	c.Stubs = stubs
 	c.Sim.StepBudget = 2000000
+	if op.Vars >= 0 {
+		c.Vars = []map[string]any{{}}
+	}
 	return &Bundle{Prop: "C10", Kind: kind, Case: c, Expect: mustJSON(exp), Tags: tags}
 }
 
